@@ -111,6 +111,18 @@ Definition popcount (x : N) : nat := match x with N0 => 0 | Npos p => popcount_p
 Definition decode (mask obs_outcomes : N) : Z :=
   (1 - 2 * Z.of_nat (Nat.b2n (Nat.odd (popcount (N.land obs_outcomes mask)))))%Z.
 
+(* _process_outcome(cog, outcome), integer outcome:
+     num_meas_bits = len(_get_pauli_indices(cog))
+     obs_outcomes = outcome & ((1 << num_meas_bits) - 1) ; qpd_outcomes = outcome >> num_meas_bits
+     qpd_factor = 1 - 2 * (bit_count(qpd_outcomes) & 1) ; rv[i] = qpd_factor * obs_i
+   It reads cog.pauli_indices and cog.pauli_bitmasks and must not change them. *)
+Definition process_outcome (idx : list nat) (masks : list N) (outcome : N) : list Z :=
+  let k := N.of_nat (length (pauli_indices_or_dummy idx)) in
+  let obs := N.land outcome (N.pred (N.shiftl 1 k)) in
+  let qpd := N.shiftr outcome k in
+  let qf := (1 - 2 * Z.of_nat (Nat.b2n (Nat.odd (popcount qpd))))%Z in
+  map (fun m => (qf * decode m obs)%Z) masks.
+
 (* ---- what the decoding is supposed to compute ------------------------------------------------
    The appended circuit measures subsystem qubit pauli_indices[i] into bit i of the register. *)
 Definition outcome_bit (idx : list nat) (b : N) (q : nat) : bool :=
